@@ -1296,12 +1296,8 @@ pub fn run_net(prog: &NetProgram, opts: &RunOpts) -> NetResult {
                 crate::clear_panic();
             }
             build.links.push((li, r.is_ok()));
-            if r.is_err() {
-                // a rejected connect panics while the gate is locked: outside a harness that aborts the program.
-                // The gates involved are unusable afterwards, so the build stops here and nothing is run.
-                build.aborted = true;
-                break;
-            }
+            // (a rejected call leaves both gates exactly as they were: the build goes on, and everything that was
+            // connected legally - before or after - works)
         }
         if build.aborted {
             drop(refs);
